@@ -17,7 +17,7 @@ F = get_functions()
 E = Error.errors
 GROUP = __GROUP__              # function names handled by this generated copy (<= 8)
 NA_, DIV_, REF_ = E['#N/A'], E['#DIV/0!'], E['#REF!']
-P11 = [1, -2.5, 0, True, 'x', '7', sh.EMPTY, NA_, DIV_, np.asarray([[1, 'a']], object), np.asarray([[2], [REF_]], object)]
+P11 = [1, -2.5, 0, True, 'x', '7', sh.EMPTY, NA_, DIV_, np.asarray([[1, 'a']], object), np.asarray([[2], [REF_]], object), '1E+999']
 P8 = [1, -2.5, 0, True, 'x', sh.EMPTY, NA_, np.asarray([[1, 'a']], object)]
 P4 = [2, 'x', sh.EMPTY, DIV_]
 
@@ -92,7 +92,7 @@ def total0_ok(f0: bool, f1: bool, f2: bool) -> bool:
 
 def total1_ok(f0: bool, f1: bool, f2: bool, a0: bool, a1: bool, a2: bool, a3: bool) -> bool:
     """
-    pre: sel(f0, f1, f2) < len(GROUP) and sel(a0, a1, a2, a3) < 11
+    pre: sel(f0, f1, f2) < len(GROUP) and sel(a0, a1, a2, a3) < 12
     post: _
     """
     return concrete(_call, sel(f0, f1, f2), [P11[sel(a0, a1, a2, a3)]])
@@ -100,7 +100,7 @@ def total1_ok(f0: bool, f1: bool, f2: bool, a0: bool, a1: bool, a2: bool, a3: bo
 
 def total2_ok(f0: bool, f1: bool, f2: bool, a0: bool, a1: bool, a2: bool, a3: bool, b0: bool, b1: bool, b2: bool, b3: bool) -> bool:
     """
-    pre: sel(f0, f1, f2) < len(GROUP) and sel(a0, a1, a2, a3) < 11 and sel(b0, b1, b2, b3) < 11
+    pre: sel(f0, f1, f2) < len(GROUP) and sel(a0, a1, a2, a3) < 12 and sel(b0, b1, b2, b3) < 12
     post: _
     """
     return concrete(_call, sel(f0, f1, f2), [P11[sel(a0, a1, a2, a3)], P11[sel(b0, b1, b2, b3)]])
